@@ -25,10 +25,14 @@ pub fn on_reclaim_decision(sh: &mut Shadow, block: usize, depth: usize, curr_epo
     let in_window = !ob.stamp_tainted && curr_epoch >= stamp && age >= 3 && oldest_age <= 13;
     if now {
         sh.c12_checked += 1;
-        if curr_epoch >= stamp && age < 3 {
+        // true age: against the clock itself, not the value the cascade says it compared with
+        // (the two differ by at most one in a correct cascade, and then the clock is the larger)
+        let clock = crate::sched::sim().clock.map(|f| f()).unwrap_or(curr_epoch).max(curr_epoch);
+        let true_age = clock.saturating_sub(stamp);
+        if clock >= stamp && true_age < 3 {
             let det = format!(
-                "child #{} reclaimed immediately at epoch {} although its youngest stamp was written at epoch {} (true age {} < 3)",
-                o, curr_epoch, stamp, age
+                "child #{} reclaimed immediately at epoch {} (the cascade compared against epoch {}) although its youngest stamp was written at epoch {} (true age {} < 3)",
+                o, clock, curr_epoch, stamp, true_age
             );
             // not fatal: the ownership oracles (C01/C02) judge the destruct that follows in this step
             sh.soft("C12", "reclaimed-too-young", det);
